@@ -921,6 +921,17 @@ class CallMixin:
             raise Unsupported("is_instance of %s" % v.ty)
         return sym.mk_bool(self.heap.read("object", "__class__", TInt, v.t).t == self.class_id(node.args[1].value))
 
+    def sp_isa_opaque(self, node, env):
+        """isa_opaque(x, 'Name'): the opaque (Any / Optional[Any]) value x is an instance of the external class Name - the
+        same uninterpreted predicate that isinstance(x, mod.Name) evaluates to in code (bi_isinstance); None is no instance"""
+        v = self.evalv(node.args[0], env)
+        name = node.args[1].value
+        if v.ty == TAny:
+            return sym.mk_bool(self.isinstance_of(v.t, name))
+        if isinstance(v.ty, TOpt) and v.ty.inner == TAny:
+            return sym.mk_bool(z3.And(z3.Not(sym.opt_is_none(v)), self.isinstance_of(sym.opt_val(v).t, name)))
+        raise Unsupported("isa_opaque of %s" % v.ty)
+
     def sp_cast(self, node, env):
         """cast(obj, 'Cls'): view a reference as an instance of a subclass (spec only; the clause should guard it with
         isinstance knowledge of its own)."""
@@ -1090,10 +1101,8 @@ class CallMixin:
             if ty == TAny or (isinstance(ty, TOpt) and ty.inner == TAny):
                 # opaque external object: its dynamic class is unknown; isinstance is an uninterpreted predicate of
                 # (object handle, class name) - deterministic, otherwise unconstrained; None is an instance of nothing
-                ids = self.registry.__dict__.setdefault("_isinst_ids", {})
-                f = z3.Function("isinstance_of", z3.IntSort(), z3.IntSort(), z3.BoolSort())
                 h = sym.opt_val(v).t if isinstance(ty, TOpt) else v.t
-                r = z3.Or(*[f(h, z3.IntVal(ids.setdefault(n, len(ids)))) for n in names])
+                r = z3.Or(*[self.isinstance_of(h, n) for n in names])
                 if isinstance(ty, TOpt):
                     r = z3.And(z3.Not(sym.opt_is_none(v)), r)
                 return sym.mk_bool(r)
